@@ -60,7 +60,9 @@ def make_exception(name: str, status: int, url: str, method: str):
         except Exception:  # noqa: BLE001
             u = URL("http://192.0.2.1/")
         ri = aiohttp.RequestInfo(u, method, CIMultiDictProxy(CIMultiDict()), u)
-        return cls(ri, (), status=status, message="scripted", headers=CIMultiDictProxy(CIMultiDict({"X-E": "1"})))
+        # aiohttp raises some response errors without headers (TooManyRedirects; the constructor's default is None)
+        hdrs = None if status % 2 else CIMultiDictProxy(CIMultiDict({"X-E": "1"}))
+        return cls(ri, (), status=status, message="scripted", headers=hdrs)
     if name == "UnixClientConnectorError":
         return cls("/run/x.sock", key, os_err)
     if issubclass(cls, ce.ClientConnectorCertificateError):
